@@ -114,7 +114,7 @@ def _strategy(draw):
     for _ in range(draw(st.integers(3, 12))):
         op = draw(st.sampled_from(["setup_asset", "setup_asset", "setup_portfolio", "setup_portfolio", "setup_split",
                                    "setup_fix", "optimize", "extract", "reload", "cost_samples", "shortcut", "json", "json",
-                                   "setup_inner", "run_split", "run_mono"]))
+                                   "setup_inner", "run_split", "run_mono", "setup_preset", "setup_preset"]))
         steps.append({"op": op, "k": draw(st.integers(0, n - 1)), "g": draw(st.integers(0, ngr - 1)),
                       "frame": draw(st.booleans()), "interval": draw(st.sampled_from(["2h", "3h", "d"]))})
     return {"grid": g0, "grids": grids, "assets": assets, "prices_per_grid": prices, "steps": steps}
@@ -257,6 +257,22 @@ def check(spec):
             fresh = eao_call(fa.setup_optim_problem, price_container(spec, gi, False), build.build_grid(spec["grids"][gi]))
             compare(out, live, fresh, "%s (asset %s, grid %d)" % (what, spec["assets"][k]["name"], gi))
             touch([k], gi)
+            if is_err(fresh):
+                precondition_errors += 1
+        elif op == "setup_preset":
+            # documented default of `timegrid`: the grid is set beforehand on every asset (as a portfolio does), then
+            # asset k is set up without passing the grid
+            p = prices_for(gi, False)
+            errs = [eao_call(a_.set_timegrid, live_grids[gi]) for a_ in live_assets]
+            fa = build_assets(spec)[k]
+            fresh = eao_call(fa.setup_optim_problem, price_container(spec, gi, False), build.build_grid(spec["grids"][gi]))
+            if any(is_err(e_) for e_ in errs):
+                if not is_err(fresh):
+                    precondition_errors += 1      # some other asset does not accept this grid (e.g. coarser than its own frequency)
+                continue
+            live = eao_call(live_assets[k].setup_optim_problem, p)
+            compare(out, live, fresh, "%s (asset %s, grid %d set beforehand on all assets)" % (what, spec["assets"][k]["name"], gi))
+            touch(range(n_assets), gi)
             if is_err(fresh):
                 precondition_errors += 1
         elif op in ("setup_portfolio", "setup_split", "setup_fix", "cost_samples", "shortcut"):
